@@ -82,6 +82,14 @@ def rand_objs(rng, nobj=6):
             ms = [member(rng, 0, dt=0x5, acc="ro", src="default")]
             ms[0]["default"] = n
             ms += [member(rng, s, dt=dt) for s in range(1, n + 1)]
+            if idx % 2 == 0:
+                # a member the dictionary does not list: the library serves it on demand with member 1's
+                # type, access and DEFAULT (not its configured value, not its read callback); the server
+                # model sees an ordinary entry, the dictionary under test does not contain it
+                v = {"sub": n + 1 + idx % 7, "dt": ms[1]["dt"], "acc": ms[1]["acc"], "virtual": True}
+                if ms[1].get("default") is not None:
+                    v["default"] = ms[1]["default"]
+                ms.append(v)
             objs.append({"kind": "arr", "idx": idx, "name": name, "members": ms})
     return objs
 
@@ -144,7 +152,7 @@ def gen_case(rng, focus):
         if focus == "refuse":
             pick = rng.choice(["missing_idx", "missing_sub", "wrong_len", "ro_write", "wo_read",
                                "novalue", "toggle_ul", "toggle_dl", "repeat_seg", "unknown", "block_dl", "ok_dl",
-                               "ok_ul", "var_sub"])
+                               "ok_ul", "var_sub", "cross"])
         else:
             pick = rng.choice(["ok_dl", "ok_dl", "ok_ul", "ok_ul", "ok_ul", "garbage", "restart",
                                "block_ul", "missing_sub", "wrong_len", "toggle_ul", "cross"])
